@@ -716,6 +716,45 @@ class Program:
                     out.append(s)
         return out
 
+    def lift_sites(self, sites, has_context, depth=3):
+        """call sites seen from the function that holds the context a rule needs: a site inside
+        a helper that lacks the context (a block extracted into a private function) is replaced
+        by the call sites of that helper, up to `depth` levels. A helper nobody calls keeps its
+        own site (the rule then decides it as it stands)."""
+        out = []
+        for s in sites:
+            cur = [s]
+            for _ in range(depth):
+                nxt = []
+                changed = False
+                for x in cur:
+                    if has_context(x.fn):
+                        nxt.append(x)
+                        continue
+                    # an async fn body is called through its outer fn
+                    target = x.fn.path
+                    if target.endswith('::{closure#0}') and self.async_body(target[:-len('::{closure#0}')]) is x.fn:
+                        target = target[:-len('::{closure#0}')]
+                    cs = [c for f in self.fns.values() for c in f.sites() if c.callee == target]
+                    if cs:
+                        nxt.extend(cs)
+                        changed = True
+                    else:
+                        nxt.append(x)
+                cur = nxt
+                if not changed:
+                    break
+            out.extend(cur)
+        # de-duplicate by (fn, block)
+        seen = set()
+        res = []
+        for x in out:
+            k = (x.fn.path, x.bb)
+            if k not in seen:
+                seen.add(k)
+                res.append(x)
+        return res
+
     def trait_impl_items(self, trait_item):
         if self._trait_impls is None:
             T = defaultdict(list)
